@@ -63,6 +63,24 @@ theorem secOfMs_eq_secondsOf (d : Nat) (h : 1000000 ∣ d) : secOfMs (d / 100000
   have h3 : (1000000 : Rat) * (1000000 : Rat)⁻¹ = 1 := by decide +kernel
   rw [h2, ← Rat.mul_assoc, Rat.mul_comm (1000000 : Rat), Rat.mul_assoc ((k : Int) : Rat), h3, Rat.mul_one]
 
+/-- `x * 1000000000 / d` is `x` per second of a range of `d` nanoseconds, for every `d` -/
+theorem perSecond_rat (x : Rat) (d : Nat) : x * 1000000000 / ((d : Int) : Rat) = x / secondsOf d := by
+  unfold secondsOf
+  rw [Rat.div_def, Rat.div_def, Rat.div_def, Rat.inv_mul_rev, Rat.inv_inv, Rat.mul_assoc]
+
+theorem natCast_ne_zero_rat (d : Nat) (hd : 0 < d) : (((d : Int)) : Rat) ≠ 0 := by
+  intro h
+  have : ((d : Int)) = 0 := by exact_mod_cast h
+  omega
+
+/-- the value of `perSecond x (durNs)` once `x` evaluates to the number `q` -/
+theorem evalAgg_perSecond (o : Oracles) (env : Env) (rows : List Row) (first : Row) (x : Expr) (q : Rat) (d : Nat) (hd : 0 < d)
+    (hx : evalAgg o env rows first x = .rat q) :
+    evalAgg o env rows first (perSecond x (.int d)) = .rat (q / secondsOf d) := by
+  have hne := natCast_ne_zero_rat d hd
+  simp only [perSecond, evalAgg, hx, evalE]
+  simp [mulVal, divVal, Val.toRat?, hne, perSecond_rat]
+
 /-! ### aggregates over lists of values -/
 theorem ratsOf_map_rat {α} (l : List α) (f : α → Rat) : ratsOf (l.map (fun a => Val.rat (f a))) = some (l.map f) := by
   induction l with
@@ -139,11 +157,12 @@ theorem evalAgg_bytesF (o : Oracles) (env : Env) (rows : List Row) (first : Row)
 /-- **range functions without unwrap**: the value column of `LRAPlanner`'s select, over the rows of one
     (stream, bucket) group, is the range function of the direct reading on the entries of that group -/
 theorem range_fn_lra (o : Oracles) (env : Env) (rows : List Row) (first : Row) (grp : List Sample) (fn : RangeFn)
-    (d : Nat) (h : LraRows rows grp) (hms : 1000000 ∣ d) (hd : 0 < d) :
-    evalAgg o env rows first (.col (lraValue fn (secLit d)) "value") = .rat (lraVal fn d grp) := by
+    (d : Nat) (h : LraRows rows grp) (hd : 0 < d) :
+    evalAgg o env rows first (.col (lraValue fn (.int d)) "value") = .rat (lraVal fn d grp) := by
   cases fn <;>
-    simp [lraValue, lraVal, evalAgg, evalAgg_secLit, evalAgg_countF, evalAgg_bytesF o env rows first grp h, divVal,
-      Val.toRat?, secOfMs_eq_secondsOf d hms, h.length, secondsOf_ne_zero d hd]
+    simp [lraValue, lraVal, evalAgg, evalAgg_perSecond o env rows first _ _ d hd (evalAgg_countF o env rows first),
+      evalAgg_perSecond o env rows first _ _ d hd (evalAgg_bytesF o env rows first grp h),
+      evalAgg_countF, evalAgg_bytesF o env rows first grp h, h.length]
 
 
 /-- the rows of one (series, bucket) group of `unwrap_1` carry the (timestamp, unwrapped value) pairs `grp` -/
@@ -207,17 +226,22 @@ theorem argMaxAgg_pairs (grp : List (Int × Rat)) :
 /-- **range functions over unwrapped values**: the value column of `UnwrapFunctionPlanner`'s select over the rows of
     one (series, bucket) group is the range function of the direct reading on that group's (timestamp, value) pairs -/
 theorem range_fn_unwrap (o : Oracles) (env : Env) (rows : List Row) (first : Row) (grp : List (Int × Rat))
-    (fn : UnwrapFn) (d : Nat) (h : UnwrapRows rows grp) (hne : grp ≠ []) (hms : 1000000 ∣ d) (hd : 0 < d)
-    (hfn : fn ≠ .stdvarOT ∧ fn ≠ .stddevOT) :
-    evalAgg o env rows first (.col (unwrapValue fn (secLit d)) "value") = ((unwrapVal fn d grp).map Val.rat).getD .null := by
+    (fn : UnwrapFn) (d : Nat) (h : UnwrapRows rows grp) (hne : grp ≠ []) (hd : 0 < d) :
+    evalAgg o env rows first (.col (unwrapValue fn (.int d)) "value") = ((unwrapVal o fn d grp).map Val.rat).getD .null := by
   obtain ⟨p, ps, rfl⟩ : ∃ p ps, grp = p :: ps := by
     cases grp with
     | nil => exact absurd rfl hne
     | cons p ps => exact ⟨p, ps, rfl⟩
-  cases fn <;>
-    simp [unwrapValue, unwrapVal, evalAgg, aggCall, evalAgg_secLit, h.vals o env, h.pairs o env, sumAgg, avgAgg, minAgg, maxAgg,
-      ratsOf_cons_rat, ratsOf_map_rat, divVal, Val.toRat?, secOfMs_eq_secondsOf d hms, secondsOf_ne_zero d hd,
-      ratSum, ratSumL] at hfn ⊢
+  cases fn
+  case rate =>
+    have hx : evalAgg o env rows first (.call "sum" [.raw "unwrap_1.value"]) = .rat (ratSumL ((p :: ps).map (·.2))) := by
+      simp [evalAgg, aggCall, h.vals o env, sumAgg, ratsOf_cons_rat, ratsOf_map_rat, ratSum, ratSumL]
+    simp only [unwrapValue, evalAgg]
+    rw [evalAgg_perSecond o env rows first _ _ d hd hx]
+    simp [unwrapVal]
+  all_goals
+    simp [unwrapValue, unwrapVal, evalAgg, aggCall, h.vals o env, h.pairs o env, sumAgg, avgAgg, minAgg, maxAgg,
+      varPopAgg, stddevPopAgg, ratsOf_cons_rat, ratsOf_map_rat, divVal, Val.toRat?, ratSum, ratSumL]
   · exact argMinAgg_pairs (p :: ps)
   · exact argMaxAgg_pairs (p :: ps)
 
@@ -380,16 +404,16 @@ theorem AggRows.length {rows vs} (h : AggRows rows vs) : rows.length = vs.length
 /-- **vector aggregation**: the value column of `AggOpPlanner`'s select over the rows of one group, read as a number,
     is the aggregate of the direct reading over the values of that group -/
 theorem vector_agg_value (o : Oracles) (env : Env) (rows : List Row) (first : Row) (vs : List Rat) (fn : AggFn)
-    (h : AggRows rows vs) (hne : vs ≠ []) (hfn : fn ≠ .stddev ∧ fn ≠ .stdvar) :
-    (evalAgg o env rows first (.col (aggValue fn) "value")).toRat? = aggVal fn vs := by
+    (h : AggRows rows vs) (hne : vs ≠ []) :
+    (evalAgg o env rows first (.col (aggValue fn) "value")).toRat? = aggVal o fn vs := by
   obtain ⟨v, rest, rfl⟩ : ∃ v rest, vs = v :: rest := by
     cases vs with
     | nil => exact absurd rfl hne
     | cons v rest => exact ⟨v, rest, rfl⟩
   have hl := h.length
   cases fn <;>
-    simp [aggValue, aggVal, evalAgg, aggCall, h.vals o env, sumAgg, avgAgg, minAgg, maxAgg, ratsOf_cons_rat,
-      ratsOf_map_rat (f := fun v : Rat => v), Val.toRat?, ratSum, ratSumL, hl] at hfn ⊢
+    simp [aggValue, aggVal, evalAgg, aggCall, h.vals o env, sumAgg, avgAgg, minAgg, maxAgg, varPopAgg, stddevPopAgg,
+      ratsOf_cons_rat, ratsOf_map_rat (f := fun v : Rat => v), Val.toRat?, ratSum, ratSumL, hl]
 
 
 /-! ### comparison -/
@@ -720,7 +744,7 @@ def rangeStages (r : RangeAgg) : List StageTag :=
    | .unwrap fn _ => groupTag (chosenGrouping r.byPrefix r.bySuffix) ++ [.range true fn.name]) ++ cmpTag r.cmp
 
 def aggStages (a : VecAgg) : List StageTag :=
-  rangeStages a.inner ++ groupTag (chosenGrouping a.byPrefix a.bySuffix) ++ [.agg a.fn] ++ cmpTag a.cmp
+  rangeStages a.inner ++ [.group (aggGrouping a)] ++ [.agg a.fn] ++ cmpTag a.cmp   -- no grouping clause written = `by ()`
 
 /-- the matrix stages of a query in the order of the text (innermost first); no duration occurs in it -/
 def writtenStages : MetricQuery → List StageTag
@@ -749,10 +773,10 @@ theorem shortcutRange_tags (r : RangeAgg) : (shortcutRange r).flatMap Step.tags 
   cases r.kind <;> simp [List.flatMap_append, cmpStep_tags, Step.tags]
 
 theorem orderAgg_tags (a : VecAgg) : (orderAgg a).flatMap Step.tags = aggStages a := by
-  simp [orderAgg, aggStages, List.flatMap_append, orderRange_tags, cmpStep_tags, Step.tags]
+  simp [orderAgg, aggStages, List.flatMap_append, orderRange_tags, cmpStep_tags, Step.tags, groupTag]
 
 theorem shortcutAgg_tags (a : VecAgg) : (shortcutAgg a).flatMap Step.tags = aggStages a := by
-  simp [shortcutAgg, aggStages, List.flatMap_append, shortcutRange_tags, cmpStep_tags, Step.tags]
+  simp [shortcutAgg, aggStages, List.flatMap_append, shortcutRange_tags, cmpStep_tags, Step.tags, groupTag]
 
 theorem functionOrder_tags (q : MetricQuery) : (functionOrder q).flatMap Step.tags = writtenStages q := by
   cases q with
@@ -1105,10 +1129,10 @@ def lraKey (o : Oracles) (env : Env) (d : Nat) (r : Row) : List Val :=
 
 theorem lraSel_keyOf (o : Oracles) (env : Env) (fn : RangeFn) (d : Nat) (r : Row) :
     let cols := [bucketCol "time_series.timestamp_ns" d, simpleCol "fingerprint" "fingerprint", emptyStr,
-      Expr.col (lraValue fn (secLit d)) "value"]
+      Expr.col (lraValue fn (.int d)) "value"]
     [Expr.raw "fingerprint", Expr.raw "timestamp_ns"].map (fun g => evalE o env (aliasVals o env cols r ++ r) g) = lraKey o env d r := by
   cases fn <;>
-    simp [aliasVals, hasAgg, aggNames, lraValue, countF, bytesF, secLit, bucketCol, simpleCol, emptyStr, evalE, evalEs, Row.get,
+    simp [aliasVals, hasAgg, aggNames, lraValue, perSecond, countF, bytesF, bucketCol, simpleCol, emptyStr, evalE, evalEs, Row.get,
       List.lookup, lraKey]
 
 /-- **one point per (stream, range bucket)**: `LRAPlanner`'s select returns exactly one row for every distinct
